@@ -19,6 +19,7 @@ class FakeMesh:
         self.npoints = npoints
         self.ncells = self.cells.shape[0]
         self.dim = dim
+        self.ndof = npoints * dim
         self.points = symarray(tag, (npoints, dim))
         self.cell_type = cell_type
         used = set(self.cells.reshape(-1).tolist())
